@@ -186,9 +186,10 @@ def judge (f out : List String) : Verdict :=
         | _ => { badCase with cls := base ++ "/bad-reply", judge := some false, detail := "unreadable reply" }
       | _ => { badCase with cls := base ++ "/bad-reply", judge := some false, detail := "unreadable reply" }
     | status :: _ =>
-      -- race (the race detector stopped the process) / crash / panic / timeout / err of the harness op: the
-      -- property demands termination for every stream, and a data race is a failure whatever the input
-      let inDom := status == "race" || status == "crash" || isGzDamage c.dm ||
+      -- race (the race detector stopped the process) / crash / timeout (both channels were not closed within
+      -- the deadline: the harness ends such a request through runner.TimeoutNow) / panic / err of the harness
+      -- op: the property demands termination for EVERY stream, and a data race is a failure whatever the input
+      let inDom := status == "race" || status == "crash" || status == "timeout" || isGzDamage c.dm ||
         (match classify c.doc r c.dm with | .unknown => false | _ => true)
       { corr := false, judge := if inDom then some false else none, cls := base ++ "/no-reply-" ++ status,
         detail := "harness: " ++ short (lineOf out) }
